@@ -33,6 +33,9 @@ pub struct GoalSpec {
     pub mode: GoalMode,
     /// sample_goal returns Err at this (0-based) call
     pub fail_at: Option<u64>,
+    /// additional (non-metric) membership condition: lo <= flat[idx] <= hi. Lets a goal tell
+    /// apart states that are at distance 0 from each other (zero-weight components, q / -q)
+    pub window: Option<(usize, f64, f64)>,
 }
 
 #[derive(Clone, Debug, PartialEq)]
@@ -100,7 +103,8 @@ impl GoalSpec {
             GoalMode::Rng => json!("rng"),
             GoalMode::List(l) => json!({"list": l.iter().map(|x| fjs(x)).collect::<Vec<_>>()}),
         };
-        json!({"centre":fjs(&self.centre),"radius":fj(self.radius),"mode":mode,"fail_at":self.fail_at})
+        json!({"centre":fjs(&self.centre),"radius":fj(self.radius),"mode":mode,"fail_at":self.fail_at,
+               "window":self.window.map(|(i, lo, hi)| json!([i, fj(lo), fj(hi)]))})
     }
     pub fn from_json(v: &Value) -> GoalSpec {
         let mode = match &v["mode"] {
@@ -113,6 +117,7 @@ impl GoalSpec {
             radius: parse_f(&v["radius"]),
             mode,
             fail_at: v["fail_at"].as_u64(),
+            window: v["window"].as_array().map(|a| (a[0].as_u64().unwrap() as usize, parse_f(&a[1]), parse_f(&a[2]))),
         }
     }
 }
@@ -662,7 +667,7 @@ pub fn gen_problem(r: &mut Sm, spec: &Spec, host: Hostility) -> Problem {
         spec: spec.clone(),
         world,
         start,
-        goal: GoalSpec { centre: gc, radius, mode, fail_at: None },
+        goal: GoalSpec { centre: gc, radius, mode, fail_at: None, window: None },
         infeasible,
         tags,
     }
